@@ -8,7 +8,7 @@ import numpy as np
 from hypothesis import strategies as st
 
 from vf import forms, gens
-from vf.core import Result, lib
+from vf.core import Result, history_independent, lib
 
 ID = "C19"
 TITLE = "Fluid facade and PVT-table builder reproduce the underlying correlations"
@@ -175,6 +175,14 @@ def check_case(case) -> Result:
                 (f"water_viscosity(scalar as {form})", lambda: [float(fl.water_viscosity(forms.scalar(q, form))) for q in qs], [W.viscosity_water_McCain(T, q, sal) for q in qs]),
             ]
             res.labels["scalar_pressure_form"] = form
+        # another Fluid object evaluated in between must not change what this one returns
+        fl_other = Fluid(T + 7, api + 3, min(1.3, sg * 1.1), gor * 1.3, salinity=sal * 0.5 + 0.1)
+
+        def _both(which):
+            f_ = fl if which == "this" else fl_other
+            return np.concatenate([np.asarray(f_.oil_FVF(arr_np), float), np.asarray(f_.oil_viscosity(arr_np), float), np.asarray(f_.water_viscosity(arr_np), float), [float(f_.pressure_bubblepoint())]])
+
+        lib("Fluid methods", history_independent, res, "C19/independent-of-other-objects", _both, ("this",), [("other",)], "Fluid.oil_FVF / oil_viscosity / water_viscosity / pressure_bubblepoint")
         for name, call, want in pairs:
             got = lib(f"Fluid.{name}", call)
             _close(res, "C19/fluid-delegation", got, want, 1e-13, f"Fluid({T!r},{api!r},{sg!r},{gor!r},salinity={sal!r}).{name} on {list(ps)} (tpc={tpc!r}, ppc={ppc!r})")
